@@ -21,6 +21,13 @@ SPELLS = ["direct", "str", "list", "dict", "opt", "union", "whole"]
 PERMS = [list(p) for p in itertools.permutations(["A", "B", "N"])]
 
 
+def with_s(o):
+    """the subclass S of A: absent, defined straight after A, or defined last"""
+    i = o.index("A")
+    out = [list(o), o[:i + 1] + ["S"] + o[i + 1:], list(o) + ["S"]]
+    return [x for j, x in enumerate(out) if x not in out[:j]]
+
+
 def legal(p):
     pos = {e: i for i, e in enumerate(p["ents"])}
     for f in p["fields"]:
@@ -36,12 +43,12 @@ def legal(p):
 
 
 def all_module_programs():
-    for o in PERMS:
-        for fu in (False, True):
-            for us in (["A", "B"], ["B", "A"]):
+    for o0, fu in itertools.product(PERMS, (False, True)):
+        for o in with_s(o0):
+            for us in ([["S", "A"], ["A", "S"], ["S", "B"], ["B", "S"]] if "S" in o else [["A", "B"], ["B", "A"]]):
                 for t1, s1, t2, s2, c2, t3, s3, c3 in itertools.product(
                         "AB", SPELLS, "BN", SPELLS, (False, True), "AN", SPELLS, (False, True)):
-                    p = {"ents": o, "scope": "module", "future": fu, "uses": us, "decoy": False,
+                    p = {"ents": o, "scope": "module", "future": fu, "uses": us, "decoy": False, "fscope": "none", "varargs": False,
                          "fields": [{"c": "A", "att": "f1", "target": t1, "spell": s1, "cons": False},
                                     {"c": "A", "att": "f2", "target": t2, "spell": s2, "cons": c2},
                                     {"c": "B", "att": "g1", "target": t3, "spell": s3, "cons": c3}]}
@@ -52,9 +59,20 @@ def all_module_programs():
 def all_local_programs():
     for d in (False, True):
         for s1, s2 in itertools.product(SPELLS[1:], repeat=2):
-            yield {"ents": ["A"], "scope": "local", "future": False, "uses": ["A", "A"], "decoy": d,
+            yield {"ents": ["A"], "scope": "local", "future": False, "uses": ["A", "A"], "decoy": d, "fscope": "none", "varargs": False,
                    "fields": [{"c": "A", "att": "f1", "target": "A", "spell": s1, "cons": False},
                               {"c": "A", "att": "f2", "target": "A", "spell": s2, "cons": False}]}
+
+
+def all_func_programs():
+    """a decorated function (module level, or nested in a factory function) whose parameter and return type name class B"""
+    for o, fu, fs, va, s1, s2 in itertools.product((["B", "F"], ["F", "B"]), (False, True), ("module", "local"), (False, True),
+                                                    SPELLS, SPELLS):
+        p = {"ents": o, "scope": "module", "future": fu, "uses": ["F", "F"], "decoy": False, "fscope": fs, "varargs": va,
+             "fields": [{"c": "F", "att": "p", "target": "B", "spell": s1, "cons": False},
+                        {"c": "F", "att": "r", "target": "B", "spell": s2, "cons": False}]}
+        if legal(p):
+            yield p
 
 
 def annotation(f, n, future):
@@ -68,7 +86,7 @@ def source(p, n):
     lines = []
     if p["future"]:
         lines.append("from __future__ import annotations")
-    lines += ["from typing import List, Dict, Optional, Union", "from utype import Schema, Field, Rule", ""]
+    lines += ["from typing import List, Dict, Optional, Union", "import utype", "from utype import Schema, Field, Rule", "LOG = []", "RET = [None]", ""]
     ind = ""
     if p["scope"] == "local":
         if p["decoy"]:
@@ -78,6 +96,21 @@ def source(p, n):
     for e in p["ents"]:
         if e == "N":
             lines += [ind + "class N_%d(int, Rule):" % n, ind + "    ge = 0", ""]
+            continue
+        if e == "S":
+            lines += [ind + "class S_%d(A_%d):" % (n, n), ind + "    x: int = 0", ""]
+            continue
+        if e == "F":
+            fp, fr = [f for f in p["fields"] if f["c"] == "F"]
+            i2 = "    " if p["fscope"] == "local" else ""
+            if p["fscope"] == "local":
+                lines.append("def factory():")
+            lines += [i2 + "@utype.parse",
+                      i2 + "def F_%d(%sp: %s) -> %s:" % (n, "*" if p["varargs"] else "", annotation(fp, n, p["future"]), annotation(fr, n, p["future"])),
+                      i2 + "    LOG.append(p)", i2 + "    return RET[0]"]
+            if p["fscope"] == "local":
+                lines += ["    return F_%d" % n, "F_%d = factory()" % n]
+            lines.append("")
             continue
         lines.append(ind + "class %s_%d(Schema):" % (e, n))
         lines.append(ind + "    v: int = 0")
@@ -100,9 +133,11 @@ def build_input(p, c, depth, kind, local, top=True):
     the wrong type; badcons: every field with a Field constraint gets a value that violates it."""
     cname = ("make.<locals>.%s" % c) if local else c
     data, echo = {"v": "1"}, {"__cls__": cname, "v": 1}
+    if c == "S":
+        echo["x"] = 0
     if depth == 0:
         return data, echo
-    fs = [f for f in p["fields"] if f["c"] == c]
+    fs = [f for f in p["fields"] if f["c"] == ("A" if c == "S" else c)]
     for j, f in enumerate(fs):
         bad = kind == "badleaf" and top and j == len(fs) - 1
         if f["target"] == "N":
@@ -127,7 +162,7 @@ def project(obj):
         for k, v in dict.items(obj):
             d[str(k)] = project(v)
         return d
-    if isinstance(obj, list):
+    if isinstance(obj, (list, tuple)):
         return [project(x) for x in obj]
     if isinstance(obj, dict):
         return {str(k): project(v) for k, v in obj.items()}
@@ -141,6 +176,7 @@ def canon(x):
 
 
 def closure_has_cons(p, c):
+    c = "A" if c == "S" else c
     cs = {c} | {f["target"] for f in p["fields"] if f["c"] == c and f["target"] != "N"}
     return any(f["cons"] for f in p["fields"] if f["c"] in cs)
 
@@ -156,6 +192,8 @@ def run_program(p, n):
         except Exception as e:
             return None, "%s: %s" % (type(e).__name__, e)
         local = p["scope"] == "local"
+        if "F" in p["ents"]:
+            return run_func(p, n, mod), None
         for c in p["uses"]:
             cls = mod.make() if local else getattr(mod, "%s_%d" % (c, n))
             results = []
@@ -179,7 +217,39 @@ def run_program(p, n):
     return uses, None
 
 
+def run_func(p, n, mod):
+    fn = getattr(mod, "F_%d" % n)
+    fp, fr = [f for f in p["fields"] if f["c"] == "F"]
+    good, egood = {"v": "1"}, {"__cls__": "B", "v": 1}
+    bad = {"v": "zz"}
+    uses = []
+    for u in p["uses"]:
+        results = []
+        kinds = ["valid", "badleaf", "badret"]
+        if n % 2:
+            kinds = kinds[1:] + kinds[:1]
+        for kind in kinds:
+            arg = wrap(fp["spell"], bad if kind == "badleaf" else good)
+            mod.RET[0] = wrap(fr["spell"], bad if kind == "badret" else good)
+            del mod.LOG[:]
+            echo = {"param": [wrap(fp["spell"], egood)] if p["varargs"] else wrap(fp["spell"], egood), "ret": wrap(fr["spell"], egood)}
+            r = {"kind": kind, "ok": True, "value": "", "echo": canon(echo), "exc": []}
+            try:
+                out = fn(arg)
+                r["value"] = canon({"param": project(mod.LOG[-1]), "ret": project(out)})
+            except Exception as e:
+                r["ok"] = False
+                r["exc"] = [k.__name__ for k in type(e).__mro__][:4]
+                r["msg"] = str(e)[:160].encode("ascii", "replace").decode()
+            results.append(r)
+        uses.append({"cls": u, "results": results})
+    return uses
+
+
 def pattern(p):
+    if "F" in p["ents"]:
+        return "func:%s%s%s|%s|%s" % (p["fscope"], "+future" if p["future"] else "", "+varargs" if p["varargs"] else "", ">".join(p["ents"]),
+                                      ",".join("%s:%s" % (f["att"], f["spell"]) for f in p["fields"]))
     return "%s%s|%s" % (p["scope"], "+future" if p["future"] else "",
                         ",".join("%s.%s:%s>%s%s" % (f["c"], f["att"], f["spell"], f["target"], "+cons" if f["cons"] else "")
                                  for f in p["fields"]))
@@ -190,6 +260,9 @@ def key_of(p, clause, use, res):
     dup = any(a["target"] == b["target"] and a["spell"] != b["spell"] and
               a["spell"] in ("list", "dict", "opt", "union") and b["spell"] in ("list", "dict", "opt", "union")
               for a in p["fields"] for b in p["fields"] if a is not b and a["c"] == b["c"]) and not p["future"]
+    if "F" in p["ents"]:
+        return "C17|%s|func:%s%s|%s|%s" % (clause, p["fscope"], "+varargs" if p["varargs"] else "", res["kind"],
+                                           "spells=" + "+".join(sorted({f["spell"] for f in p["fields"]})))
     return "C17|%s|%s%s|%s|%s" % (clause, p["scope"], "+future" if p["future"] else "", res["kind"],
                                   "same-name-in-two-generics" if dup else "spells=" + "+".join(sorted({f["spell"] for f in p["fields"]})))
 
@@ -203,23 +276,34 @@ def main():
     if mc.invariant_violated:
         ck.note("model-level counterexample: Variant=fixed violates %s" % mc.invariant_violated)
         ck.count("model_only_counterexamples")
-    mo = tlc.run("MC_ForwardRefs", "MC_ForwardRefs_orig.cfg")
-    if not mo.invariant_violated:
-        raise MachineryError("P_Model not falsified on Variant=orig: property layer is vacuous")
-    ck.count("orig_variant_refuted_by_TLC")
+    for cfg, what in (("MC_ForwardRefs_orig.cfg", "Variant=orig"), ("MC_ForwardRefs_noinherit.cfg", "Inherit=FALSE"),
+                      ("MC_ForwardRefs_returnlate.cfg", "FixReturn=FALSE"), ("MC_ForwardRefs_originlost.cfg", "FixOrigin=FALSE")):
+        mo = tlc.run("MC_ForwardRefs", cfg)
+        if not mo.tagged("MVIOL"):
+            raise MachineryError("P_Model not falsified on %s: property layer is vacuous" % what)
+        ck.count("variants_refuted_by_TLC")
     menu = mc.tagged("MENU")
     if not menu or sorted(menu[0][1]["spells"]["__set__"]) != sorted(SPELLS):
         raise MachineryError("program family of the harness differs from MC_ForwardRefs (spellings)")
+    mine = sorted({tuple(x) for o in PERMS for x in with_s(o)})
+    if sorted(tuple(x) for x in menu[0][1]["perms"]["__set__"]) != mine:
+        raise MachineryError("program family of the harness differs from MC_ForwardRefs (definition orders)")
 
-    progs = list(all_local_programs())
+    progs = list(all_local_programs()) + list(all_func_programs())
     modp = list(all_module_programs())
     ck.count("programs_in_family", len(progs) + len(modp))
-    nsample = len(modp) if thorough else 2500
+    if mc.initial_states is not None and mc.initial_states != len(progs) + len(modp):
+        raise MachineryError("program family of the harness (%d) differs from MC_ForwardRefs (%d initial states)" % (
+            len(progs) + len(modp), mc.initial_states))
+    nsample = len(modp) if thorough else 3500
     # always include the programs in which one class uses the same name in two different generics / unions
     special = [p for p in modp if not p["future"] and any(
         a["c"] == b["c"] and a["target"] == b["target"] and a["spell"] != b["spell"]
         for a in p["fields"] for b in p["fields"] if a is not b)]
     chosen = rng.sample(modp, min(nsample, len(modp))) + rng.sample(special, min(len(special), 400 if not thorough else 0))
+    # ... and programs whose very first use is the subclass, before its base was ever called
+    subfirst = [p for p in modp if p["uses"][0] == "S"]
+    chosen += rng.sample(subfirst, min(len(subfirst), 600 if not thorough else 0))
     progs += chosen
     records, meta = [], {}
     for n, p in enumerate(progs):
@@ -259,10 +343,12 @@ def main():
                 seen.add(k)
                 ck.note("divergence: M (ForwardRefs.tla, Variant=fixed) predicts a different verdict for use %d of %s" % (t[3], k))
     ck.exhaustive = thorough
-    ck.rule = ("programs = the family of MC_ForwardRefs (2 data classes + a constrained int type, 3 reference fields x 7 spellings "
-               "x targets x Field constraint x 6 definition orders x postponed annotations x 2 first-use orders; local-scope "
-               "self-referencing classes with/without a same-named module-level decoy): all local ones, a seeded sample of 2500 "
-               "module ones plus 400 with one name in two generics (quick) / all of them (thorough); each exec'd in a fresh "
+    ck.rule = ("programs = the family of MC_ForwardRefs (2 data classes + a constrained int type + optionally a subclass of the first "
+               "class, 3 reference fields x 7 spellings x targets x Field constraint x definition orders x postponed annotations x "
+               "first-use orders (subclass before / after its base); decorated functions at module level or nested in a factory "
+               "function whose parameter (p or *p) and return type name a class, 7 x 7 spellings x 2 definition orders; local-scope "
+               "self-referencing classes with/without a same-named module-level decoy): all local ones, a seeded sample of 3500 "
+               "module ones plus 400 with one name in two generics and 600 whose first use is the subclass (quick) / all of them (thorough); each exec'd in a fresh "
                "module; distinct_nontrivial = distinct program shapes executed; every use run with valid / bad-leaf / "
                "constraint-violating input")
     ck.trusted = ["TLC 1.8", "harness/drivers/c17.py: source generator, input builder and its typed echo, projection of results"]
